@@ -4,6 +4,7 @@ INIT FInit
 NEXT FNext
 CONSTRAINT Bound
 INVARIANT FTypeOK
+INVARIANT FRefusalStoresNothing
 INVARIANT FlagMeaning
 INVARIANT ReadExtendsOnly
 INVARIANT BytesExact
